@@ -10,7 +10,7 @@ package main
 //                      true for (pub(priv), msg, Sign(priv, msg)). Unforgeability is stated by the
 //                      harnesses (which signatures the adversary may hold).
 //   ed25519.Sign       fresh 64 bytes, recorded; a signature made for (key, msg) verifies for msg under no
-//                      other key (exclusive ownership).   ed25519.GenerateKey: fresh, pairwise distinct keys.
+//                      other key (exclusive ownership).   ed25519.GenerateKey: concrete, pairwise distinct key names.
 //   AES-GCM (modelGCMSeal/Open, used by verifrt.ModelAEAD): Seal yields fresh bytes of
 //                      len(plaintext)+16; Open succeeds iff (key, nonce, ciphertext) is literally a
 //                      recorded Seal (ideal AEAD).
@@ -211,13 +211,15 @@ func init() {
 		return nil, actDone
 	})
 	reg("crypto/ed25519.GenerateKey", func(r *Run, g *G, a []Value) (Value, action) {
-		seed := r.freshBytes("ed25519.seed", 32)
-		pub := r.freshBytes("ed25519.pub", 32)
-		// freshly generated keys are pairwise distinct
+		// keys are names in the ideal model: concrete, pairwise distinct byte strings (the k-th key pair of
+		// a run is seed = k,0xA5.. / public = k,0x5A..); what they sign and verify is decided by the axioms
 		cs := r.crypto()
-		for _, prev := range cs.genPubs {
-			r.assertTerm(tNot(eqCells(pub, prev)))
+		k := len(cs.genPubs) + 1
+		seed, pub := make([]Value, 32), make([]Value, 32)
+		for i := range seed {
+			seed[i], pub[i] = int64(0xA5), int64(0x5A)
 		}
+		seed[0], pub[0] = int64(k), int64(k)
 		cs.genPubs = append(cs.genPubs, pub)
 		priv := append(append([]Value{}, seed...), pub...)
 		return Tuple{sliceOf(append([]Value{}, pub...)), sliceOf(priv), Iface{}}, actDone
@@ -407,5 +409,131 @@ func init() {
 			sum = rawAdd(sum, rawMul(byteTerm(b.a[i]), mkZConst(new(big.Int).Lsh(big.NewInt(1), uint(8*i)))))
 		}
 		return termToValue(wrap(sum, 64, false)), actDone
+	})
+}
+
+func init() {
+	reg := func(name string, f intrinsic) { intrinsics[name] = f }
+	reg("crypto/rand.Read", func(r *Run, g *G, a []Value) (Value, action) {
+		s := a[0].(Slice)
+		n, ok := s.ln.(int64)
+		if !ok {
+			engineFail("rand.Read into a symbolic-length buffer")
+		}
+		fresh := r.freshBytes("rand", int(n))
+		for i := int64(0); i < n; i++ {
+			s.a[i] = fresh[i]
+		}
+		return Tuple{n, Iface{}}, actDone
+	})
+	// time.After: a channel that does not fire within a run (timers are outside the bounded runs)
+	reg("time.After", func(r *Run, g *G, a []Value) (Value, action) {
+		return r.newChan(1, nil), actDone
+	})
+}
+
+// ---- encoding/hex: symbolic bytes <-> two characters each, as ite terms (no forking) ----
+
+func hexCharOf(nib *Term) *Term {
+	ten := mkConst(big.NewInt(10), 8, false)
+	return tIte(tLtRaw(nib, ten), wrap(rawAdd(nib, mkZConst(big.NewInt(48))), 8, false), wrap(rawAdd(nib, mkZConst(big.NewInt(87))), 8, false))
+}
+
+func (r *Run) hexEncodeCells(src []Value) []Value {
+	out := make([]Value, 0, 2*len(src))
+	const tbl = "0123456789abcdef"
+	for _, c := range src {
+		switch x := c.(type) {
+		case int64:
+			out = append(out, int64(tbl[byte(x)>>4]), int64(tbl[byte(x)&15]))
+		case *Term:
+			hi, _ := tArith("/", x, mkConst(big.NewInt(16), 8, false))
+			lo, _ := tArith("%", x, mkConst(big.NewInt(16), 8, false))
+			out = append(out, termToValue(hexCharOf(hi)), termToValue(hexCharOf(lo)))
+		default:
+			engineFail("hex encode of %T", c)
+		}
+	}
+	return out
+}
+
+// hexNibble returns (value, valid) of one hex character.
+func hexNibble(c *Term) (*Term, *Term) {
+	k := func(n int64) *Term { return mkConst(big.NewInt(n), 8, false) }
+	dig := tAnd(tLeRaw(k(48), c), tLeRaw(c, k(57)))
+	low := tAnd(tLeRaw(k(97), c), tLeRaw(c, k(102)))
+	up := tAnd(tLeRaw(k(65), c), tLeRaw(c, k(70)))
+	val := tIte(dig, rawSub(c, mkZConst(big.NewInt(48))), tIte(low, rawSub(c, mkZConst(big.NewInt(87))), rawSub(c, mkZConst(big.NewInt(55)))))
+	return val, tOr(dig, tOr(low, up))
+}
+
+func (r *Run) hexDecode(g *G, src Slice) (cells []Value, okAll bool) {
+	n, ok := src.ln.(int64)
+	if !ok {
+		n, _ = r.concreteIndex(g, src.ln, r.curPosPrev(g))
+	}
+	valid := tTrue
+	for i := int64(0); i+1 < n; i += 2 {
+		h, hv := hexNibble(byteTerm(src.a[i]))
+		l, lv := hexNibble(byteTerm(src.a[i+1]))
+		valid = tAnd(valid, tAnd(hv, lv))
+		v := wrap(rawAdd(rawMul(h, mkZConst(big.NewInt(16))), l), 9, false)
+		v.width = 8
+		cells = append(cells, termToValue(v))
+	}
+	if n%2 == 1 {
+		return cells, false
+	}
+	if !r.branchKind("hex-valid", valid, r.curPosPrev(g)) {
+		return nil, false
+	}
+	return cells, true
+}
+
+func init() {
+	reg := func(name string, f intrinsic) { intrinsics[name] = f }
+	reg("encoding/hex.EncodeToString", func(r *Run, g *G, a []Value) (Value, action) {
+		s := a[0].(Slice)
+		n, ok := s.ln.(int64)
+		if !ok {
+			n, _ = r.concreteIndex(g, s.ln, r.curPosPrev(g))
+		}
+		return normStr(&SymStr{b: r.hexEncodeCells(s.a[:n]), n: 2 * n}), actDone
+	})
+	reg("encoding/hex.Encode", func(r *Run, g *G, a []Value) (Value, action) {
+		dst, s := a[0].(Slice), a[1].(Slice)
+		n, ok := s.ln.(int64)
+		if !ok {
+			n, _ = r.concreteIndex(g, s.ln, r.curPosPrev(g))
+		}
+		if !r.check(g, r.cmpLen(dst.ln, ">=", 2*n), "index out of range", r.curPosPrev(g)) {
+			return nil, actPanic
+		}
+		for i, c := range r.hexEncodeCells(s.a[:n]) {
+			dst.a[i] = c
+		}
+		return 2 * n, actDone
+	})
+	reg("encoding/hex.Decode", func(r *Run, g *G, a []Value) (Value, action) {
+		dst, s := a[0].(Slice), a[1].(Slice)
+		cells, ok := r.hexDecode(g, s)
+		if !ok {
+			return Tuple{int64(0), r.codecError()}, actDone
+		}
+		if !r.check(g, r.cmpLen(dst.ln, ">=", int64(len(cells))), "index out of range", r.curPosPrev(g)) {
+			return nil, actPanic
+		}
+		for i, c := range cells {
+			dst.a[i] = c
+		}
+		return Tuple{int64(len(cells)), Iface{}}, actDone
+	})
+	reg("encoding/hex.DecodeString", func(r *Run, g *G, a []Value) (Value, action) {
+		str := r.symOf(a[0])
+		cells, ok := r.hexDecode(g, Slice{a: str.b, ln: str.n, cp: int64(len(str.b))})
+		if !ok {
+			return Tuple{Slice{ln: int64(0), cp: int64(0)}, r.codecError()}, actDone
+		}
+		return Tuple{sliceOf(cells), Iface{}}, actDone
 	})
 }
